@@ -410,7 +410,8 @@ def cases(draw):
 
 
 def corpus_chunks(tier, seed):
-    return sorted(glob.glob(os.path.join(VERIF, 'corpus', '*.diff')))
+    return sorted(glob.glob(os.path.join(VERIF, 'corpus', '*.diff'))) + \
+        [os.path.join(VERIF, 'corpus', 'small', 'ctrl-z.diffx')]
 
 
 def run_corpus(path, st):
@@ -463,9 +464,10 @@ def checks():
                  'reader-runs)'),
         EnumCheck(
             'spec-examples', corpus_chunks, run_corpus, run_case=run_case,
-            rule='the same sweep over the seven specification example files',
-            bound={'quick': '7 files x all paddings x all block sizes',
-                   'thorough': '7 files x all paddings x all block sizes'}),
+            rule='the same sweep over the seven specification example files and '
+                 'one file with 0x1A bytes right behind its headers',
+            bound={'quick': '8 files x all paddings x all block sizes',
+                   'thorough': '8 files x all paddings x all block sizes'}),
         EnumCheck(
             'interpreter-flags', o_chunks, run_o_chunk,
             run_case=run_o_case,
